@@ -5,6 +5,7 @@ import Model.Spec.Tidy
 /-
 case <id> kind=consts
 case <id> kind=tidy v=<bits> unit=<hex> iu=<hex: implementation's unit> iv=<bits: implementation's value>
+case <id> kind=conc v=<bits> units=<hexlist>   (8 goroutines per 4 fresh units; obs: per unit the set of distinct results)
 case <id> kind=seq v=<bits> units=<hexlist> iseq=<implementation's value:unit list>
 case <id> kind=hist files=<N<name>:bits:unit+… ; … | …> fk=u|nu|name|all|re-MODE|nre-MODE (MODE = prefix|exact|sub|suffix: regexp built from the literal pat) pat=<hex> ivals=<implementation's fresh values>
 case <id> kind=file lines=<U:unit:key=val+key=val | B:bits:unit+bits:unit ; …> q=<hexlist> pat=<hexlist> ivals=<implementation's values>
@@ -206,6 +207,18 @@ def handle (l : Line) : IO Unit := do
     let iu := unhex (l.getD "iu")
     IO.println s!"spec {id} unit={su.toHex} val={hexF sv} base={if Spec.Tidy.isBase iu then 1 else 0} idem=1"
   | "file" => handleFile l
+  | "conc" =>
+    -- concurrent first use: per unit exactly one reader result and one Tidy result, the stateless ones
+    let v := bits (l.getD "v")
+    let us := (l.hexList? "units").getD []
+    let m := us.map fun u =>
+      let (tv, tu) := tidy v u
+      s!"R:{showValue (readerValue v u)}/T:{hexF tv}:{tu.toHex}"
+    IO.println s!"obs {id} conc={join m}"
+    let sp := us.map fun u =>
+      let (sv, su) := Spec.Tidy.tidy v u
+      s!"R:{showReport (Spec.Tidy.report v u)}/T:{hexF sv}:{su.toHex}"
+    IO.println s!"spec {id} conc={join sp}"
   | "seq" =>
     -- a history of Tidy calls: the model and the specification are stateless
     let v := bits (l.getD "v")
